@@ -5,7 +5,12 @@ PID = 'C06'
 
 
 def items():
-    return secretkeys.scenarios() + [s for s in fingerprints.scenarios() if PID in getattr(s, 'props', ())]
+    # the passphrase-to-key derivation protect() and unlock() depend on: text and octet passphrases, and a second derivation on the same
+    # specifier object (what protect() does); the full product of configurations is C12's
+    from contracts import s2k
+    kdf = [s for s in s2k.scenarios() if any(t in s.cid for t in ('[Iterated,SHA1,CAST5,str]', '[Iterated,SHA256,AES256,bytes]', '[Salted,SHA256,AES256,bytes]',
+                                                                  'second call after re-salting,Salted,SHA1,CAST5'))]
+    return secretkeys.scenarios() + [s for s in fingerprints.scenarios() if PID in getattr(s, 'props', ())] + kdf
 
 
 def run(tier='quick', seed=0, only=None):
@@ -17,4 +22,4 @@ def run(tier='quick', seed=0, only=None):
     return runner.run_property(PID, its, bounded=bounded, tier=tier, seed=seed, level='proof',
                                trusted_base=['pyvc symbolic executor', 'z3 5.1 / cvc5 1.0.3'],
                                assumptions=['cipher (symenc._encrypt/_decrypt), SHA-1 and os.urandom are externals: uninterpreted / ghost randomness stream',
-                                            'String2Key.derive_key is used through its contract (proved in C12)'])
+                                            'String2Key.derive_key is used through its contract; four of its configurations are discharged here, the full product in C12'])
